@@ -408,8 +408,10 @@ def _check_tool(case, src, tmp, counters, brew_rollup, mpeps):
         # the output root may be a string the input file names merely begin with ("c" vs. "c0.targets.psms"): only files
         # named "<root>.<...>" are the tool's own earlier outputs
         root = "c" if case["seed"] % 2 else "rollup"
-        guarded(brew_rollup.main, ["--level", base, "--src_dir", str(src), "--dest_dir", str(out), "--verbosity", "0"]
-                + (["--file_root", root] if root != "rollup" else []), sig="brew_rollup")
+        # (the streaming constants are small for the tool too: its result must not depend on them)
+        with config_inject.chunk_sizes(confidence=case["conf_chunk"], merge=case["merge_chunk"]):
+            guarded(brew_rollup.main, ["--level", base, "--src_dir", str(src), "--dest_dir", str(out), "--verbosity", "0"]
+                    + (["--file_root", root] if root != "rollup" else []), sig="brew_rollup")
     finally:
         mpeps.PEP_ALGORITHM["qvality"] = saved
     have_extra = case["extra"] if case["rollup"] else []
